@@ -226,6 +226,81 @@ CHECKS["C05"] = (
     "Numbers are equal by value across int/float/ratio/decimal; NaN appears only at top level.",
     "5/C05")
 
+CHECKS["C07"] = (
+    "Xform",
+    "TLA+ spec Xform.tla (every listed function as a declarative reference AND as a transducer step/flush machine; process "
+    "Pull / StepThrough / Complete) model-checked by TLC; TLC-emitted cases (pipeline, input, expected output, minimal pulls) "
+    "replayed through the application forms of the real code with a counting input and probe transducers",
+    "TLC checks for all pipelines and inputs within the bounds that the machine output equals the composition of the "
+    "references, completion happens exactly once after the last pull, nothing is pulled after reduced and no stage pulls more "
+    "than it must; three wrong machines are rejected. Each emitted case (depth 1: all inputs up to length 4/5; depth 2: up to "
+    "2/3; depth 3, long and infinite inputs sampled) is executed on the real code as lazy-seq arities, into, sequence, "
+    "transduce, eduction and comp, over an instrumented input that counts pulls and with probe transducers that record "
+    "init/step/complete calls.",
+    "Trusted: TLC; the parameter vocabulary concretisation (predicates/mappers as real functions). Pull slack of one source "
+    "element is allowed (the property demands that consumption stops, not that it is minimal). transduce/into on an EMPTY "
+    "input may skip completion (documented behaviour; unobservable for the listed transducers).",
+    "5/C07")
+CHECKS["C08"] = (
+    "Calls",
+    "TLA+ spec Calls.tla (arity selection, binding of fixed and rest parameters, lazy tail pulling, arity error before body, "
+    "recur) model-checked by TLC; its exhaustive case table replayed on real fns through every call shape",
+    "TLC checks for every arity signature (fixed arities within 0..4, optional variadic) x call shape x argument count 0..8 "
+    "that exactly one outcome exists, an arity error precedes any body code, the rest parameter is nil when empty, apply "
+    "realizes at most what binding the fixed parameters and testing for more requires, and recur keeps depth constant; five "
+    "wrong machines are rejected. All 18 786 cases run on real defn/fn objects called locally, through the Var, through "
+    "apply with an instrumented lazy (or infinite) tail and through partial, under direct linking and var indirection; "
+    "frame depth is sampled at iterations 1, 10, 10^3, 10^5 (10^6) of loop and fn recur.",
+    "Trusted: TLC; generated function bodies return their bindings as a vector and log entry through a harness function. "
+    "Arity errors are compared as 'error with no body entry' (TypeError or RuntimeException family), not by class name.",
+    "5/C08")
+CHECKS["C09"] = (
+    "Destructure, SyntaxQuote",
+    "TLA+ specs Destructure.tla (Bind defined only through Nth / NthNext / Get) and SyntaxQuote.tla (Expand and its "
+    "evaluation over namespace states) checked by TLC; emitted pattern x value rows and templates replayed through the real "
+    "let / fn / loop and the real reader; macroexpansion checked differentially",
+    "TLC checks that Bind is total, :or applies exactly when Get reports absence, :as is the value itself, and for templates "
+    "that evaluating Expand(t) equals the direct reading, gensyms are one symbol per template and fresh across templates, "
+    "every non-special unqualified symbol is qualified; negative models are rejected. The nth/nthnext/get primitive table is "
+    "re-validated against the real functions on every run. Every row runs through let, fn, loop (+recur), keyword-argument and "
+    "rest-argument fns with several seq flavours; templates are read in really established namespace states and compared up "
+    "to a gensym bijection, then evaluated; ~1000 forms over 40 macro contexts are evaluated directly, after macroexpand and "
+    "after repeated macroexpand-1.",
+    "Trusted: TLC; concretisation of patterns/values/templates to text. A seq given to a map pattern is read as keyword "
+    "arguments (repo tests and Clojure agree); behaviour outside the documented pattern vocabulary is left unspecified.",
+    "5/C09")
+CHECKS["C10"] = (
+    "Names, NamesImpl, Names_Gen, Names_Follow",
+    "TLA+ specs Names.tla (required resolution of spellings to Vars and of reads to values) and NamesImpl.tla (module globals "
+    "keyed by munged names + direct-link rule) model-checked by TLC over the full reachable state space per collision class; "
+    "TLC-generated histories replayed as real forms under both linking modes",
+    "TLC checks that the as-built model refines the required one when the deviations are off, that different names denote "
+    "different Vars, all spellings of a name agree, locals shadow, private Vars are unreachable from elsewhere, and that "
+    "def-only programs behave alike under direct linking and var indirection; with a deviation on TLC prints the minimal "
+    "witness. Histories of def / redef / ns switch / alias / refer / alter-var-root (exhaustive to length 3-4 per collision "
+    "class, simulated to 12 over the whole pool) are replayed in fresh namespace pairs; afterwards every spelling (bare, "
+    "alias-qualified, fully qualified, shadowed by a local, var, binding) is compiled and evaluated and compared; a mismatch "
+    "is classified by the smallest deviation set whose as-built outcome equals the observation.",
+    "Trusted: TLC; the munge table supplied to the model is checked against the real munge at start-up. Where the property is "
+    "silent (alias/name for a merely referred name, (var private), binding of a non-dynamic Var) nothing is compared.",
+    "5/C10")
+CHECKS["C14"] = (
+    "Cache, CacheImpl, CacheImpl_MC",
+    "TLA+ specs Cache.tla (loader: stat, read, decide, exec cached / recompile, non-atomic write with crash at any point, "
+    "concurrent source edits) and CacheImpl.tla (keyword intern table) model-checked by TLC with refinement and liveness; "
+    "every class of edge of the state graph replayed with real files and child interpreters",
+    "TLC checks on the full state space (2 hash seeds, 3 source versions, 12 cache prefix classes) that a stale, truncated or "
+    "foreign-magic cache is never executed, every load runs the current version, a successful load leaves a valid cache, a "
+    "failed one leaves none that a later load would accept, and snapshots from cache equal snapshots from source for every "
+    "pair of writer and reader seeds; eight wrong loaders are rejected. Child interpreters (own hash seed and cache directory, "
+    "importer functions wrapped before the import) replay the edges: reference loads, every coarse class of StartLoad edge, "
+    "crash injections for every prefix class, loads with the source edited mid-way; the file left behind must match the "
+    "model. At the decoding layer every truncation length and header bit flip of real caches is fed to "
+    "_get_basilisp_bytecode in-process (~100k calls).",
+    "Trusted: TLC; the child driver's wrappers; byte-offset concretisation of prefix classes (exhaustive only at the "
+    "decoding layer, sampled through child processes).",
+    "5/C14")
+
 NOT_APPLICABLE = []
 
 
